@@ -254,6 +254,25 @@ CHECKS = {
         "ambiguity excluded; K8 (meta attribute order) attributed by its "
         "trigger.",
         "DESIGN.md 3/C17"),
+    "C18": (
+        "exploration",
+        "metamorphic re-spelling of abstract templates + leak scan with an "
+        "independent reader + reference interpreter",
+        "Every generated template is written in four spellings (tal: prefix; "
+        "another prefix bound to the TAL URI on the root or on each element; "
+        "data-<prefix>-<name> for a random subset of each element's "
+        "statements; default spelling with the data option on), with foreign "
+        "material mixed in (declared foreign prefix, data-x / data-x-y / "
+        "data-foo-bar, xml:lang, @click, undeclared prefixes when the "
+        "namespace restriction is off, repeated attributes, self-closing "
+        "siblings rebinding a prefix). All spellings must render what the "
+        "default spelling renders, the default must equal the reference "
+        "interpreter (foreign material verbatim, in place), and a leak scan "
+        "of the output must find no template-language tag, attribute, "
+        "declaration or data- statement.",
+        "Only the TAL namespace is re-spelled here (METAL / I18N under C09 / "
+        "C10); reader and reference interpreter are trusted.",
+        "DESIGN.md 3/C18"),
     "C19": (
         "exploration",
         "differential strict vs non-strict + planted invalid expressions "
